@@ -175,6 +175,12 @@ where
     push(out, format!("{}-retain-shrink", tag), &s);
     let s: HashSet<T, S> = l.iter().cloned().chain(l.iter().cloned()).collect();
     push(out, format!("{}-collect-twice", tag), &s);
+    if tag == "default" {
+        // the ordered collection with the same content iterates in `Ord` order by construction: "ascending key order"
+        // judged on the implementation alone (a hash set sorted by anything else differs from it)
+        let b: std::collections::BTreeSet<T> = l.iter().cloned().collect();
+        push(out, "default-as-btreeset".to_string(), &b);
+    }
 }
 
 fn run_hashset<T>(op: &str, args: &[&str]) -> String
@@ -225,6 +231,10 @@ where
     let mut s: HashMap<K, V, S> = HashMap::default();
     fill(&mut s, l);
     push(out, format!("{}-forward", tag), &s);
+    if tag == "default" {
+        let b: std::collections::BTreeMap<K, V> = s.iter().map(|(k, v)| (k.clone(), v.clone())).collect();
+        push(out, "default-as-btreemap".to_string(), &b);
+    }
     push(out, format!("{}-clone", tag), &s.clone());
     s.reserve(5000);
     push(out, format!("{}-reserve", tag), &s);
@@ -462,6 +472,65 @@ pub fn run_untyped(op: &str, args: &[&str]) -> Option<String> {
                 Err(e) => crate::errs::err_s(&e),
             };
             Some(format!("set n={} de={};map n={} de={}", s.len(), ds, m.len(), dm))
+        }
+        // rangekeys: an IndexSet / IndexMap of two RangeInclusive<u8> keys that differ only in the `exhausted` flag
+        // (Eq and Hash tell them apart, the format does not carry the flag): serialized, then decoded again
+        ("rangekeys", []) => {
+            let a = 3u8..=3;
+            let mut b = 3u8..=3;
+            b.next();
+            let s: indexmap::IndexSet<core::ops::RangeInclusive<u8>> = [a.clone(), b.clone()].into_iter().collect();
+            let bytes = borsh::to_vec(&s).ok()?;
+            let ds = match borsh::from_slice::<indexmap::IndexSet<core::ops::RangeInclusive<u8>>>(&bytes) {
+                Ok(x) => format!("ok {}", x.len()),
+                Err(e) => crate::errs::err_s(&e),
+            };
+            let m: indexmap::IndexMap<core::ops::RangeInclusive<u8>, u8> = [(a, 1), (b, 2)].into_iter().collect();
+            let mb = borsh::to_vec(&m).ok()?;
+            let dm = match borsh::from_slice::<indexmap::IndexMap<core::ops::RangeInclusive<u8>, u8>>(&mb) {
+                Ok(x) => format!("ok {}", x.len()),
+                Err(e) => crate::errs::err_s(&e),
+            };
+            Some(format!("set n={} de={};map n={} de={}", s.len(), ds, m.len(), dm))
+        }
+        // nevercolls: collections whose element is an UNINHABITED type or built from one (`enum Never {}`,
+        // Option<Never>, Result<(), Never>, [Never; 3]): all occupy no memory, so every collection of them must be refused
+        // in both directions (C14's first sentence on element types the model's universe does not have)
+        ("nevercolls", []) => {
+            use borsh::{BorshDeserialize, BorshSerialize};
+            use std::collections::{BTreeMap, LinkedList, VecDeque};
+            #[derive(BorshSerialize, BorshDeserialize, Debug, PartialEq, Eq, PartialOrd, Ord, Hash, Clone)]
+            enum Never {}
+            fn both<C: BorshSerialize + BorshDeserialize>(label: &str, empty: &C, out: &mut Vec<String>) {
+                let se = match borsh::to_vec(empty) {
+                    Ok(b) => format!("ok {}", b.len()),
+                    Err(e) => crate::errs::err_s(&e),
+                };
+                let de = match borsh::from_slice::<C>(&[0, 0, 0, 0]) {
+                    Ok(_) => "ok".to_string(),
+                    Err(e) => crate::errs::err_s(&e),
+                };
+                let de1 = match C::deserialize(&mut &[1u8, 0, 0, 0, 0][..]) {
+                    Ok(_) => "ok".to_string(),
+                    Err(e) => crate::errs::err_s(&e),
+                };
+                out.push(format!("{} size={} ser={} de0={} de1={}", label, "0", se, de, de1));
+            }
+            let mut out = Vec::new();
+            assert_eq!(core::mem::size_of::<Never>() + core::mem::size_of::<Option<Never>>() + core::mem::size_of::<Result<(), Never>>() + core::mem::size_of::<[Never; 3]>(), 0);
+            both("Vec<Never>", &Vec::<Never>::new(), &mut out);
+            both("Vec<Option<Never>>", &Vec::<Option<Never>>::new(), &mut out);
+            both("VecDeque<Result<(),Never>>", &VecDeque::<Result<(), Never>>::new(), &mut out);
+            both("LinkedList<[Never;3]>", &LinkedList::<[Never; 3]>::new(), &mut out);
+            both("BTreeMap<Never,u8>", &BTreeMap::<Never, u8>::new(), &mut out);
+            both("HashSet<Option<Never>>", &HashSet::<Option<Never>>::new(), &mut out);
+            // the usable neighbours
+            let o: Option<Never> = None;
+            let on = match borsh::to_vec(&o) { Ok(b) => format!("ok {:?}", b), Err(e) => crate::errs::err_s(&e) };
+            let od = match borsh::from_slice::<Option<Never>>(&[0]) { Ok(x) => format!("ok {}", x.is_none()), Err(e) => crate::errs::err_s(&e) };
+            let od1 = match borsh::from_slice::<Option<Never>>(&[1]) { Ok(_) => "ok".to_string(), Err(e) => crate::errs::err_s(&e) };
+            out.push(format!("Option<Never> ser={} de0={} de1={}", on, od, od1));
+            Some(out.join("|"))
         }
         // sockv6dec: what a decoded SocketAddrV6 holds in the two fields the format does not carry (Model::to_val
         // drops them, so the typed ops cannot see them)
